@@ -27,7 +27,7 @@ def check(rep, model, tier):
     for centre, (res, ctx) in shape_tables(model).items():
         site = f'{fn.path}:{fn.node.lineno} compute_shape_features[center_extrema={centre}]'
         if res is None or res[0] != 'table':
-            rep.unresolved('DEF', f'{centre}:table', site, f'result is not a table term: {T.brief(res) if res else None}')
+            rep.violation('COLSET', f'{centre}:table', site, expected='a table with the documented shape and sample columns', found=T.brief(res, 200) if res else 'no value is returned on this path (raises)')
             continue
         cols = dict(res[1])
         want_samples = set(E.SAMPLE_COLS[centre].values())
@@ -49,4 +49,38 @@ def check(rep, model, tier):
                 continue
             rep.compare('DEF', f'{centre}:{col}', site, cols[col], sd[col], ctx.unmodelled)
             n_inst += 1
+    standalone(rep, model)
     rep.floor('shape definitions compared', n_inst, 26)
+
+
+def standalone(rep, model):
+    """the five public shape functions called on their own (peak-centred cyclepoint table, as documented)"""
+    rep.rule('DEF-STANDALONE', 'compute_durations / compute_extrema_voltage / compute_symmetry (with and without precomputed durations) / compute_band_amp, called directly on a '
+                               'cyclepoint table, return the documented definitions')
+    S = E.abstract_table('S', list(E.SAMPLE_COLS['peak'].values()))
+    sig = ('param', 'sig')
+    spec, _ = E.spec('shape_features', {'S': S, 'x': sig, 'fs': ('param', 'fs'), 'f_range': ('param', 'f_range'), 'n_cycles': ('param', 'n_cycles'), 'centre': C('peak')})
+    sd = dict(spec[1])
+
+    def run(name, bound):
+        f = model.find(name)
+        r, ctx = E.run(model, f.qual, bound)
+        return f, r, ctx
+    f, r, ctx = run('compute_durations', {'df_samples': S})
+    rep.compare('DEF-STANDALONE', 'compute_durations', f'{f.path}:{f.node.lineno} compute_durations', r, ('tuple', (sd['period'], sd['time_peak'], sd['time_trough'])), ctx.unmodelled)
+    f, r, ctx = run('compute_extrema_voltage', {'df_samples': S, 'sig': sig})
+    rep.compare('DEF-STANDALONE', 'compute_extrema_voltage', f'{f.path}:{f.node.lineno} compute_extrema_voltage', r, ('tuple', (sd['volt_peak'], sd['volt_trough'])), ctx.unmodelled)
+    keys = ('time_decay', 'time_rise', 'volt_decay', 'volt_rise', 'volt_amp', 'time_rdsym', 'time_ptsym')
+    want = ('dict', tuple(sorted((k, sd[k]) for k in keys)))
+    f, r, ctx = run('compute_symmetry', {'df_samples': S, 'sig': sig})
+    rep.compare('DEF-STANDALONE', 'compute_symmetry(durations omitted)', f'{f.path}:{f.node.lineno} compute_symmetry', r, want, ctx.unmodelled)
+    f, r, ctx = run('compute_symmetry', {'df_samples': S, 'sig': sig, 'period': sd['period'], 'time_peak': sd['time_peak'], 'time_trough': sd['time_trough']})
+    rep.compare('DEF-STANDALONE', 'compute_symmetry(durations given)', f'{f.path}:{f.node.lineno} compute_symmetry', r, want, ctx.unmodelled)
+    f, r, ctx = run('compute_band_amp', {'df_samples': S, 'sig': sig, 'fs': ('param', 'fs'), 'f_range': ('param', 'f_range'), 'n_cycles': ('param', 'n_cycles')})
+    # the tiling fact l[i+1] == n[i] holds for tables from compute_cyclepoints (C01); on an abstract table the two window idioms differ syntactically,
+    # so compare on the table the pipeline actually produces
+    St, _ = E.run(model, 'compute_cyclepoints', {'sig': sig, 'fs': ('param', 'fs'), 'f_range': ('param', 'f_range')}, overrides=E.CYCLEPOINT_ABS)
+    if St is not None and St[0] == 'table':
+        f, r, ctx = run('compute_band_amp', {'df_samples': St, 'sig': sig, 'fs': ('param', 'fs'), 'f_range': ('param', 'f_range'), 'n_cycles': ('param', 'n_cycles')})
+        spec2, _ = E.spec('shape_features', {'S': St, 'x': sig, 'fs': ('param', 'fs'), 'f_range': ('param', 'f_range'), 'n_cycles': ('param', 'n_cycles'), 'centre': C('peak')})
+        rep.compare('DEF-STANDALONE', 'compute_band_amp', f'{f.path}:{f.node.lineno} compute_band_amp', r, dict(spec2[1])['band_amp'], ctx.unmodelled)
